@@ -360,7 +360,7 @@ for i,f in enumerate(RTF):
     if i>=RTF_FIRST:
         c07.append(job("field-"+f,"rule/flags","VH_RoundTrip",["C07/"],{"shape":0,"field":i,"list":0,"digits":3,"smalldigits":3,"strmax":1,"maxkeys":0,"sysforms":2},Q,expect=["C07/accepted-by-build"],
            bounds=f"syscall rule with one {f} filter (every operator; 3 symbolic decimal digits / -1 / root / string of 0..1 plain bytes) x action x {{no -S, -S open|execve|all}}"))
-        c07.append(job("field10-"+f,"rule/flags","VH_RoundTrip",["C07/"],{"shape":0,"field":i,"list":0,"digits":10,"smalldigits":4,"strmax":2,"maxkeys":1,"sysforms":3},T,expect=["C07/accepted-by-build"],bounds=f"as field-{f} with 10 symbolic digits, strings of 0..2 bytes, 0..1 key, -S by number"))
+        c07.append(job("field5-"+f,"rule/flags","VH_RoundTrip",["C07/"],{"shape":0,"field":i,"list":0,"digits":5,"smalldigits":4,"strmax":2,"maxkeys":1,"sysforms":3},T,expect=["C07/accepted-by-build"],bounds=f"as field-{f} with 5 symbolic digits, strings of 0..2 bytes, 0..1 key, -S by number"))
         continue
     lst = 2 if f=="msgtype" else 0
     wide = f in ("uid","gid","msgtype","a0")
